@@ -208,7 +208,11 @@ func runHarness(ld *Loaded, spec HarnessSpec, tier string, workers int, twin boo
 				for k, n := range ex.kinds {
 					res.Forks[k] += n
 				}
+				twinHit := false
 				for _, v := range i.violations {
+					if twin && v.Kind == "assert" && v.Label == "twin" {
+						twinHit = true // the twin's job is done: its final assertion is reachable and violated
+					}
 					v.Harness = spec.name()
 					v.Vector = ex.vector()
 					v.Trace = i.traceStrings()
@@ -228,6 +232,9 @@ func runHarness(ld *Loaded, spec HarnessSpec, tier string, workers int, twin boo
 				over := res.Paths >= maxPaths
 				res.mu.Unlock()
 				fr.done(len(prefix), ex.trail)
+				if twinHit {
+					fr.stop()
+				}
 				if over {
 					if fr.pending() > 0 {
 						res.mu.Lock()
